@@ -25,7 +25,6 @@ import (
 	"encoding/hex"
 	"encoding/json"
 	"fmt"
-	"sort"
 	"strings"
 	"sync"
 	. "verifharness/hlib"
@@ -285,6 +284,12 @@ func genHist(c *Ctx, n int) []hOp {
 			}
 			classes := []string{"canonical", "reverse-unions", "expand-refs", "long-lengths", "trailing", "truncated", "bare-nameref"}
 			cl := classes[r.Intn(len(classes))]
+			if cl == "truncated" && spec.HasKind("union") {
+				// a truncated union member makes DecodeTypeValue hand nil to LookupTypeUnion; the
+				// panic unwinds through LookupByValue's deferred Unlock of an unlocked mutex, which
+				// is a fatal (unrecoverable) runtime error.  That is C11's subject, not C05's.
+				cl = "canonical"
+			}
 			var b []byte
 			switch cl {
 			case "canonical":
@@ -365,6 +370,9 @@ func checkHist(c *Ctx, ops []hOp, replay bool) {
 			now := h.ctxs[h.seenAt[t]].LookupTypeValue(t).Bytes()
 			if !bytes.Equal(now, old) {
 				key := "C05:tvstable:" + histKey(ops, i)
+				if o.Kind == "byvalue" && o.Class != "canonical" && o.Class != "truncated" {
+					key = "C05:tvstable:byvalue-noncanonical:" + o.Class
+				}
 				c.Fail("oracle", key, fmt.Sprintf("LookupTypeValue(%s) returned %x before and %x after op %d %s", DescrType(t), old, now, i, o.sexp()), rp)
 				h.seenTV[t] = bytes.Clone(now)
 			}
@@ -463,13 +471,6 @@ func lastKind(ops []hOp) string {
 		return ""
 	}
 	return histKey(ops, len(ops)-1)
-}
-
-// shrinkHist drops ops (and everything that depends on them) while the failure set keeps `key`.
-func failsWith(c *Ctx, ops []hOp, key string) bool {
-	sub := &Ctx{Prop: c.Prop, Tier: c.Tier, Rng: c.Rng}
-	_ = sub
-	return false
 }
 
 func runHistories(c *Ctx) {
@@ -833,7 +834,7 @@ func checkAlias(c *Ctx, spec *TSpec, known bool) {
 		before := bytes.Clone(zc.LookupTypeValue(t).Bytes())
 		want := zed.EncodeTypeValue(t)
 		if !bytes.Equal(before, want) {
-			c.Fail("oracle", "C05:tvstable:byvalue-trailing", fmt.Sprintf("LookupTypeValue(%s) = %x after LookupByValue of a non-canonical encoding; EncodeTypeValue = %x", DescrType(t), before, want), rp)
+			c.Fail("oracle", "C05:tvstable:byvalue-noncanonical:trailing", fmt.Sprintf("LookupTypeValue(%s) = %x after LookupByValue of a non-canonical encoding; EncodeTypeValue = %x", DescrType(t), before, want), rp)
 		}
 		// the caller reuses its buffer
 		for i := range buf {
@@ -1008,9 +1009,9 @@ func runC05(c *Ctx) {
 		return
 	}
 	for _, rc := range c.CorpusCases() {
-		sub := *c
-		sub.Replay = rc
+		c.Replay = rc
 		replayC05(c)
+		c.Replay = nil
 	}
 	if c.Want("hist") {
 		runHistories(c)
@@ -1033,11 +1034,6 @@ func runC05(c *Ctx) {
 	if c.Want("nameref") {
 		runNameRef(c)
 	}
-	var keys []string
-	for k := range c.Res.Stats {
-		keys = append(keys, k)
-	}
-	sort.Strings(keys)
 }
 
 func replayC05(c *Ctx) {
